@@ -379,9 +379,9 @@ def grids(tier):
         out.append(("G2:small depth<=1 pairs x 2 bindings (range small depth<=1)",
                     q1, p_ac, [s for s in sigmas(s2, s_ac, 2) if len(s) == 2]))
         z_at = A("int", "?a", "?b")
-        z1 = dedup(z_at + mk(z_at, (), ["tuple1", "tuple2"]))
+        z1 = dedup(z_at + mk(z_at, (), ["tuple1", "tuple2"]) + mk(A("int"), A("1", "?n", "?m"), ["array"]))
         z2 = dedup(z1 + mk(z_at, (), ["tuple1", "tuple2"], inner=z1))
-        out.append(("G3:depth<=2 tuple-only pairs x {}", z2, [], [()]))
+        out.append(("G3:depth<=2 pairs (tuples of int ?a ?b tuples and array[int, 1|?n|?m]) x {}", z2, [], [()]))
     else:
         out.append(("G0:depth<=1 pairs x {}", u1, full_c, [()]))
         # depth 2 over reduced atoms/constructors, empty and 1-binding partial solutions
@@ -725,7 +725,7 @@ def _work(item):
                 cur[0] += 1
                 if (sz, what) < (cur[1], cur[2]):
                     cur[1:] = [sz, what, {"s": s, "t": t, "sigma": [list(b) for b in sig]}]
-        if cnt["n"] % 9973 == 1 and len(samples) < 2:
+        if len(samples) < 2 and info.get("impl") == "subst" and s != t and cnt["ok"] % 997 == 5:
             samples.append({"s": show(s), "t": show(t), "sigma": show_sigma(sig),
                             "impl": info.get("impl"), "oracle": info.get("exp"),
                             "result": info.get("result")})
